@@ -16,6 +16,8 @@ HARNESSES = {
     'c10': dict(flavour='asan', srcs=['c10.cpp']),
     'c16': dict(flavour='asan', srcs=['c16.cpp']),
     'c12': dict(flavour='asan', srcs=['c12.cpp']),
+    'c20_tsan': dict(flavour='tsan', srcs=['c20.cpp']),
+    'c20_asan': dict(flavour='asan', srcs=['c20.cpp']),
     'c12_fuzz': dict(flavour='fuzz', srcs=['c12_fuzz.cpp']),
     'oomd_bin': dict(flavour='asan', srcs=[], common=False, with_main=True, libs='-ljsoncpp -lsystemd'),
 }
@@ -271,6 +273,23 @@ PROPS = {
              'fractional sizes; distinct by document / case hash.',
         assumptions=['continue / stop are undocumented no-op plugins that ignore their arguments (not in the table)'],
     ),
+    'C20': dict(
+        harness='c20_tsan', level='exploration',
+        quick=dict(shards=8, n=250, size=100, asan_shards=4, asan_n=150),
+        thorough=dict(shards=16, n=8000, size=100, asan_shards=8, asan_n=4000),
+        confirm_replays=3,
+        rule='rapidcheck-generated runs of the real asynchronous Log object: 1-6 producer threads x 1-400 tagged lines of '
+             '1 B..64 KiB (small / medium / several MiB in total), per-thread DISABLE/ENABLE windows with a kmsg kill '
+             'record written inside the window, generated yields, and a controllable streambuf sink (fast, slow, or '
+             'blocked after k bytes until every producer has finished). Oracle: every delivered line intact, at most '
+             'once and in per-thread order; delivered + reported dropped = logged; nothing dropped while <= 1 MiB was '
+             'ever offered; everything accepted is in the sink when ~Log returns; every flushed batch <= 1 MiB and at '
+             'most two queues (2 MiB) arrive from behind a blocked sink; silenced lines absent, kmsg records present; '
+             'ThreadSanitizer silent (tsan build) / ASan silent (asan build). Non-trivial = >= 2 producers overlapping a '
+             'blocked sink, or more than 1 MiB offered while blocked.',
+        assumptions=['thread interleavings are those the scheduler and generated yields produce (sampled, not enumerated)',
+                     'the double buffer makes "1 MiB" a per-queue bound: <= 2 MiB unwritten in total'],
+    ),
 }
 
 
@@ -417,5 +436,20 @@ def run_C12(r, spec, tier):
                        distinct_reached_compiler=fz['distinct'], jobs=fz['shards'], wall_s=round(fz['wall_s'], 1))
     cov['binary'] = bn
     cov['samples'] = (cov['samples'] + fz['samples'][:1])[:4]
+    cov['replayed'] = nrep
+    return cov
+
+
+def run_C20(r, spec, tier):
+    nrep = r.replay_tier('c20_tsan')
+    env = {'VP_SHRINK_BUDGET': '120'}
+    agg = r.campaign('c20_tsan', 'tsan', tier['shards'], tier['n'], tier['size'], extra_env=env)
+    agg2 = r.campaign('c20_asan', 'asan', tier['asan_shards'], tier['asan_n'], tier['size'], extra_env=env)
+    cov = cov_from(agg)
+    cov['evaluations'] += agg2['evaluations']
+    cov['distinct_nontrivial'] = len(agg['hashes'] | agg2['hashes'])
+    cov['flavours'] = dict(tsan=agg['evaluations'], asan=agg2['evaluations'])
+    for k, v in agg2['labels'].items():
+        cov['labels'][k] = cov['labels'].get(k, 0) + v
     cov['replayed'] = nrep
     return cov
